@@ -8,6 +8,10 @@ Supported MIR subset (anything else raises Unsupported -> the check is inconclus
             scalars, field projections (_x.N: T), Option::<i64>::{None, Some}
   terms     goto, return, switchInt on bool/ints, assert(..) -> success, calls to crate functions (translated
             recursively) and to the modelled std float methods (models.h)
+  closures  environments whose captures are all `&f64` (struct of pointers), 1-tuples of f64, `<closure as Fn<(f64,)>>::call`
+            (the closure body is translated like any function)
+  models    `<Number as Deref>::deref` -> address of the field; `Color::new_rgba` (a const constructor) -> a store of its four
+            numeric arguments into `rs_color` (the `hsla` and `format` fields are not represented); `ColorFormat::*` -> 0
 """
 import re
 import sys
@@ -71,6 +75,7 @@ class Translator:
         self.done = {}
         self.order = []
         self.structs = {}
+        self.dyn = {}
 
     def cname(self, name):
         return "mir_" + re.sub(r"[^A-Za-z0-9]+", "_", name).strip("_")
@@ -97,6 +102,21 @@ class Translator:
             return "uint8_t"
         if ty == "isize":
             return "int64_t"
+        if ty in ("color::Color", "Color"):
+            # model of the colour value: the four numeric fields (red, green, blue, alpha); `hsla` and `format` are not represented
+            self.dyn["rs_color"] = "typedef struct { double f0, f1, f2, f3; } rs_color;"
+            return "rs_color"
+        if ty in ("color::ColorFormat", "ColorFormat"):
+            return "uint8_t"
+        if ty == "(f64,)":
+            self.dyn["tup1_f64"] = "typedef struct { double f0; } tup1_f64;"
+            return "tup1_f64"
+        m = re.fullmatch(r"\{closure@([^}]+)\}", ty)
+        if m:
+            # closure environment: only by-reference captures of f64 are supported (checked where it is built)
+            n = "clos_" + re.sub(r"[^A-Za-z0-9]+", "_", m.group(1)).strip("_")
+            self.dyn[n] = "typedef struct { double *f0, *f1, *f2, *f3; } %s;" % n
+            return n
         m = re.fullmatch(r"&(?:mut )?(.+)", ty)
         if m:
             return self.ctype(m.group(1)) + " *"
@@ -161,6 +181,8 @@ class Translator:
 
     def operand(self, s, locals_):
         s = s.strip()
+        if s.startswith("no_retag "):
+            s = s[len("no_retag "):]
         m = re.fullmatch(r"(?:copy|move) \(_(\d+)\.(\d+): [^)]+\)", s)
         if m:
             return "_%s.f%s" % (m.group(1), m.group(2))
@@ -268,6 +290,24 @@ class Translator:
         m = re.fullmatch(r"(?:value::)?number::Number\((.+)\)", rhs)
         if m:
             return "(rs_number){%s}" % self.operand(m.group(1), locals_)
+        m = re.fullmatch(r"\((.+),\)", rhs)
+        if m and lty == "tup1_f64":
+            return "(tup1_f64){%s}" % self.operand(m.group(1), locals_)
+        m = re.fullmatch(r"(\{closure@[^}]+\}) \{ (.+) \}", rhs)
+        if m:
+            ct = self.ctype(m.group(1))
+            ops = []
+            for fld in m.group(2).split(", "):
+                o = fld.split(": ", 1)[1]
+                lm = re.fullmatch(r"(?:copy|move) _(\d+)", o.strip())
+                if not lm or locals_.get(lm.group(1)) != "double *":
+                    raise Unsupported("closure capture `%s` is not a reference to f64" % fld)
+                ops.append("_" + lm.group(1))
+            if len(ops) > 4:
+                raise Unsupported("closure with more than 4 captures")
+            return "(%s){%s}" % (ct, ", ".join(ops))
+        if re.fullmatch(r"(?:color::)?ColorFormat::\w+", rhs):
+            return "0"
         return self.operand(rhs, locals_)
 
     def translate(self, name):
@@ -336,9 +376,20 @@ class Translator:
                     lines.append("  rs_assert(%s%s);" % (m.group(1), cond))
                     lines.append("  goto bb%s;" % m.group(3))
                     continue
-                m = re.fullmatch(r"(_\d+|\(_\d+\.\d+: [^)]+\)) = (.+?)\((.*)\) -> \[return: bb(\d+), unwind .*\];", st)
+                m = re.fullmatch(r"(_\d+|\(_\d+\.\d+: [^)]+\)) = (.+\)) -> \[return: bb(\d+), unwind .*\];", st)
                 if m and not m.group(2).split("(")[0] in BINOPS:
-                    dst, callee, args, nb = m.groups()
+                    dst, call, nb = m.groups()
+                    # the argument list is the last balanced parenthesis group (callee paths may contain `Fn<(f64,)>`)
+                    depth, i = 0, len(call) - 1
+                    while i >= 0:
+                        if call[i] == ")":
+                            depth += 1
+                        elif call[i] == "(":
+                            depth -= 1
+                            if depth == 0:
+                                break
+                        i -= 1
+                    callee, args = call[:i], call[i + 1:-1]
                     dstc = self.place(dst)
                     cargs = [self.operand(a, locals_) for a in self.split_args(args)]
                     mo = re.fullmatch(r"<(?:value::)?number::Number as (?:std::cmp::)?PartialOrd>::(gt|lt|ge|le)", callee)
@@ -346,6 +397,27 @@ class Translator:
                         # derive(PartialOrd) on the single-f64 newtype: provided methods of core, modelled as the float comparison
                         op = {"gt": ">", "lt": "<", "ge": ">=", "le": "<="}[mo.group(1)]
                         lines.append("  %s = ((*%s).f0 %s (*%s).f0);" % (dstc, cargs[0], op, cargs[1]))
+                        lines.append("  goto bb%s;" % nb)
+                        continue
+                    if re.fullmatch(r"<(?:value::)?number::Number as (?:std::ops::)?Deref>::deref", callee):
+                        # impl Deref for Number { fn deref(&self) -> &f64 { &self.0 } }
+                        lines.append("  %s = &(*%s).f0;" % (dstc, cargs[0]))
+                        lines.append("  goto bb%s;" % nb)
+                        continue
+                    mo = re.fullmatch(r"<\{closure@([^}]+)\} as Fn<\(f64,\)>>::call", callee)
+                    if mo:
+                        want = "&{closure@%s}" % mo.group(1)
+                        c2 = [k for k, defs in self.fns.items() if re.search(r"::\{closure#\d+\}$", k) and defs[0][0].startswith("_1: " + want)]
+                        if len(c2) != 1:
+                            raise Unsupported("cannot resolve closure body for %s (%s)" % (want, c2))
+                        fn = self.translate(c2[0])
+                        lines.append("  %s = %s(%s, %s.f0);" % (dstc, fn, cargs[0], cargs[1]))
+                        lines.append("  goto bb%s;" % nb)
+                        continue
+                    if re.fullmatch(r"(?:color::)?Color::new_rgba", callee):
+                        # const constructor: stores its four numeric arguments (format / hsla are not represented in the model)
+                        self.ctype("color::Color")
+                        lines.append("  %s = (rs_color){%s.f0, %s.f0, %s.f0, %s.f0};" % (dstc, cargs[0], cargs[1], cargs[2], cargs[3]))
                         lines.append("  goto bb%s;" % nb)
                         continue
                     mo = re.fullmatch(r"<(?:value::)?number::Number as (?:std::ops::)?(\w+)>::(\w+)", callee)
@@ -358,6 +430,12 @@ class Translator:
                     elif re.fullmatch(r"(?:value::)?number::Number::(\w+)", callee):
                         meth = callee.split("::")[-1]
                         c2 = [k for k in self.fns if k.startswith("number::<impl at") and k.endswith(">::" + meth)]
+                        if len(c2) != 1:
+                            raise Unsupported("cannot resolve %s (%s)" % (callee, c2))
+                        fn = self.translate(c2[0])
+                    elif re.fullmatch(r"(?:color::)?Color::(\w+)", callee):
+                        meth = callee.split("::")[-1]
+                        c2 = [k for k in self.fns if k.startswith("color::<impl at") and k.endswith(">::" + meth)]
                         if len(c2) != 1:
                             raise Unsupported("cannot resolve %s (%s)" % (callee, c2))
                         fn = self.translate(c2[0])
@@ -408,7 +486,7 @@ class Translator:
         protos = "\n".join(p for _, p, _ in self.order)
         bodies = "\n".join(s for _, _, s in self.order)
         return "/* generated by fkern/mir2c.py from /repo's MIR */\n#include \"models.h\"\n%s\n%s\n\n%s" % (
-            "/* struct typedefs live in models.h */", protos, bodies)
+            "/* struct typedefs live in models.h; the ones below are created on demand */\n" + "\n".join(self.dyn.values()), protos, bodies)
 
 
 def main():
